@@ -244,6 +244,10 @@ Definition table_agree (r : bool * string * bool * nat * nat) : bool :=
 Definition keys_agree (r : bool * list string) : bool :=
   let t := if fst r then G.gen_matrix_functions else G.gen_default_functions in
   Nat.eqb (List.length (keys t)) (List.length (snd r)) && forallb (fun k => existsb (String.eqb k) (snd r)) (keys t).
+(* the process-wide numpy error state observed at the start / end of the run is the one the source configures *)
+Definition fpstate_agree (r : list (string * string) * bool) : bool :=
+  Bool.eqb (snd r) G.gen_seterrcall_installed &&
+  forallb (fun kv => match assoc (fst r) (fst kv) with Some m => String.eqb m (snd kv) | None => false end) G.gen_seterr.
 Definition const_agree (r : string * Q * Q) : bool :=
   match r with
   | (name, re, im) =>
@@ -405,6 +409,7 @@ def raw_call(table, fname, args):
             return seen['out'][0], seen['out'][1], log, seen['passed']
     finally:
         mathfuncs.np = old
+        O.fp_check('direct call of the %s-table entry %s on %r' % (table, fname, args))
 
 
 ARITY_RE = re.compile(r'Expected (at least )?(\d+) inputs, but received (\d+)\.')
@@ -673,6 +678,7 @@ def table_terms(res):
             if validated:
                 # probe the wrapper for its count rule (messages carry the numbers)
                 st, e = core.guarded(f)
+                O.fp_check('%s-table entry %s called without arguments' % (tname, name))
                 m = ARITY_RE.search(str(e)) if st == 'exc' else None
                 if m:
                     kind, n = (1 if m.group(1) else 0), int(m.group(2))
@@ -740,6 +746,14 @@ def run_constants(res):
             bad = 'value %r, expected %r' % (obs['value'], ref)
         if bad:
             res.witnesses.append({'key': 'formula:%s' % text, 'kind': 'formula', 'formula': text, 'expected': repr(ref), 'what': bad})
+    T = O.tables()
+    for tname in ('formula', 'matrix'):
+        for fname in sorted(T[tname]):        # no arguments at all: every entry, through the parser
+            obs = O.run_impl(tname, None, [], formula='%s()' % fname)
+            res.oracle_evals += 1
+            if obs['status'] == 'ret' or not obs['student_facing'] or obs['warnings'] or obs.get('fp_changed'):
+                res.witnesses.append({'key': 'formula:%s:%s()' % (tname, fname), 'kind': 'formula-error', 'formula': '%s()' % fname,
+                                      'table': tname, 'what': 'call without arguments: %r' % (obs.get('value', obs.get('exc')),)})
     for text in ['sin()', 'max()', 'arctan2()', 'cot(0)', 'ln(0)', 'arctan2(0, 0)', 'arctan(i)', 'arccosh(0.5)', 'arcsec(0.5)',
                  'floor(1+i)', 'min(1, i)', 'sin(1, 2)', 'exp(1000)', 'cosh(1000)', 'arctanh(1)', 'arccoth(1)', 'csc(0)', 'coth(0)',
                  'log10(0)', 'log2(0)', 'arcsec(0)', 'arccsc(0)', 'arcsech(0)', 'arccsch(0)']:
@@ -755,6 +769,207 @@ def run_constants(res):
         if bad:
             res.witnesses.append({'key': 'formula:%s' % text, 'kind': 'formula-error', 'formula': text, 'what': bad})
     return rows
+
+
+# ------------------------------------------------------------------------------------------------
+# author-supplied callables that are not wrapped by SpecifyDomain: the count rule of eval_function (required positional
+# parameters, get_number_of_args) -- a defaulted parameter must not absorb a surplus argument
+# ------------------------------------------------------------------------------------------------
+def user_functions():
+    import numpy as np
+
+    def u_double(x):
+        return 2 * x
+
+    def u_shift(x, y=5):
+        return x + y
+
+    def u_three(x, y, z=1, w=2):
+        return x * y + z + w
+
+    class Diff(object):
+        def __call__(self, x, y=3):
+            return x - y
+    return {'udouble': (u_double, 1), 'ushift': (u_shift, 1), 'uthree': (u_three, 2), 'udiff': (Diff(), 1),
+            'upow': (lambda x, k=2: x ** k, 1), 'unorm': (np.linalg.norm, 1), 'utrans': (np.transpose, 1),
+            'usum': (np.sum, 1), 'uround': (np.round, 1)}
+
+
+def run_user_functions(res):
+    from mitxgraders.helpers.calc.mathfuncs import DEFAULT_FUNCTIONS
+    users = user_functions()
+    funcs = dict(DEFAULT_FUNCTIONS)
+    funcs.update({k: v[0] for k, v in users.items()})
+    n_cases = 0
+    for name in sorted(users):
+        f, required = users[name]
+        arrayish = name in ('unorm', 'utrans', 'usum')
+        firsts = [G.vec_(3, 4), G.mat_([[1, 2], [3, 4]])] if arrayish else [G.r_(3), G.r_(-1.5)]
+        for first in firsts:
+            for n in (1, 2, 3, 4):
+                for k, extra in enumerate(G.SURPLUS[:6] if n > required else [None]):
+                    if n > required + 1 and k % 2:
+                        continue
+                    base = [first] + [G.r_(2.0)] * (required - 1)
+                    args = (base + [list(extra)] * (n - required)) if n > required else base[:n]
+                    if len(args) != n or (not arrayish and any(not O.is_scalar(a) for a in args)):
+                        continue
+                    obs = O.run_impl('formula', name, args, functions=funcs)
+                    res.oracle_evals += 1
+                    n_cases += 1
+                    what = None
+                    if obs.get('fp_changed'):
+                        what = 'the call left the numpy floating-point error state changed'
+                    elif n != required:
+                        if obs['status'] == 'ret':
+                            what = ('%d arguments passed to a function with %d required parameter(s): returned %r instead of the '
+                                    'argument-count error' % (n, required, obs['value']))
+                        elif obs['exc'] != 'ArgumentError':
+                            what = 'wrong number of arguments reported as %s' % obs['exc']
+                    else:
+                        st, want = core.guarded(f, *[O.to_python(a) for a in args])
+                        O.fp_check('direct call of user function %s' % name)
+                        if obs['status'] != 'ret':
+                            what = 'call with the required number of arguments raised %s: %s' % (obs['exc'], obs['msg'][:100])
+                        elif st == 'ret':
+                            import numpy as np
+                            if not np.allclose(np.asarray(obs['value'], dtype=complex), np.asarray(want, dtype=complex)):
+                                what = 'value %r, the function itself gives %r' % (obs['value'], want)
+                    if what:
+                        res.witnesses.append({'key': 'user:%s:%r' % (name, args), 'kind': 'user-function', 'name': name, 'args': args,
+                                              'required': required, 'what': what})
+    res.distribution['user_function_calls'] = n_cases
+
+
+# ------------------------------------------------------------------------------------------------
+# history stream: calls that raise every kind of error the library anticipates, followed by out-of-domain probes that
+# must behave exactly as in a fresh state (process-wide state such as numpy's error handling must not leak)
+# ------------------------------------------------------------------------------------------------
+PERTURBERS = [
+    ('evaluator', '[[3,3],[5,5]]^-1'), ('evaluator', '[[1,2],[2,4]]^-2'), ('evaluator', '[[0,0],[0,0]]^-1'),
+    ('evaluator', '[[1,2,3],[4,5,6],[7,8,9]]^-1'), ('evaluator', '[[1,2],[3,4]]^-1'), ('evaluator', '[[1,2],[3,4]]^-3'),
+    ('evaluator', '[[2,0],[0,2]]^2'), ('evaluator', '[[1,2],[3,4]]^0.5'), ('evaluator', '[1,2]^2'),
+    ('evaluator', '[[1,2,3],[4,5,6]]^2'), ('evaluator', '2^[1,2]'), ('evaluator', '0^-1'), ('evaluator', '1/0'),
+    ('evaluator', 'arccosh(0.5)'), ('evaluator', 'ln(0)'), ('evaluator', 'cot(0)'), ('evaluator', 'exp(1000)'),
+    ('evaluator', '10^400'), ('evaluator', 'cosh(800)*cosh(800)'), ('evaluator', 'arctan2(0,0)'), ('evaluator', 'arctanh(1)'),
+    ('evaluator', '[1,2]+[1,2,3]'), ('evaluator', '[[1,2],[3,4]]*[1,2,3]'), ('evaluator', 'sin([1,2])'), ('evaluator', 'det([1,2])'),
+    ('evaluator', 'cross([1,2],[3,4])'), ('evaluator', 'sin(1,2)'), ('evaluator', 'norm([1,2],[3,4])'), ('evaluator', 'min(1)'),
+    ('evaluator', '(1+2'), ('evaluator', '1+2)'), ('evaluator', '[1,2'), ('evaluator', 'foo(1)'), ('evaluator', 'x+1'),
+    ('evaluator', '5q'), ('evaluator', '1++'), ('evaluator', 'abs([[1,2],[3,4]])'), ('evaluator', 'floor(1+i)'),
+    ('evaluator', 'norm([3e200,4e200])'), ('evaluator', 'det([[1e200,0],[0,1e200]])'), ('evaluator', '[[1,2],[3,4]]^-1*[[3,3],[5,5]]^-1'),
+    ('matrix', '[[3,3],[5,5]]^-1'), ('matrix', '[[1,2],[2,4]]^-1'), ('matrix', '[[1,2],[3,4]]^-1'), ('matrix', '[1,2]+[1,2,3]'),
+    ('matrix', 'arccosh(0.5)*[[1,0],[0,1]]'), ('matrix', '[[1,2],[3,4]'), ('matrix', 'foo'), ('matrix', '[[1,0],[0,1]]/0'),
+    ('matrix', '[1,2,3]'), ('matrix', '[[1,2],[3,4]]^0.5'),
+    ('formula', 'arccosh(0.5)'), ('formula', '1/0'), ('formula', 'exp(1000)'), ('formula', '(1'), ('formula', 'y'), ('formula', '[1,2]'),
+    ('formula', 'sin(1,2)'), ('formula', '2'), ('formula', '1'),
+]
+PROBES = ['arccosh(0.5)', 'arcsech(2)', 'arcsec(0.5)', 'arccsc(0.5)', 'arccoth(0.5)', 'arccosh(-2)', 'arcsin(1)', 'arccos(-1)', 'arccosh(1)',
+          'arctanh(1)', 'arccoth(1)', 'ln(0)', 'log10(0)', 'log2(0)', '1/0', '0^-1', 'cot(0)', 'csc(0)', 'coth(0)', 'arcsec(0)', 'exp(1000)',
+          'cosh(1000)', 'sinh(-1000)', '10^400', 'sech(1000)', 'arctan(i)', 'sqrt(-4)', 'ln(-1)', 'tan(pi/2)', 'exp(-1000)',
+          'norm([3e200,4e200])', 'det([[1e200,0],[0,1e200]])']
+
+
+def _graders():
+    from mitxgraders import FormulaGrader, MatrixGrader
+    return {'formula': FormulaGrader(answers='1'),
+            'matrix': MatrixGrader(answers='[[1,0],[0,1]]', max_array_dim=2)}
+
+
+def history_step(channel, text, graders):
+    """one call; returns a canonical outcome (class of the error, or the value / the grading verdict)"""
+    from mitxgraders.exceptions import StudentFacingError
+    try:
+        with warnings.catch_warnings(record=True) as wl:
+            warnings.simplefilter('always')
+            if channel == 'evaluator':
+                table = 'matrix' if ('[' in text) else 'formula'
+                v = O.run_impl(table, None, [], formula=text, max_array_dim=(2 if table == 'matrix' else None))
+                if v['status'] == 'exc':
+                    out = ('exc', v['exc'], v['student_facing'])
+                else:
+                    import numpy as np
+                    arr = np.asarray(v['value'], dtype=complex)
+                    out = ('ret', 'nan' if np.any(np.isnan(arr)) else repr(v['value']), bool(v['warnings']))
+                return out
+            r = graders[channel](None, text)
+            ws = [w for w in wl if not issubclass(w.category, (DeprecationWarning, PendingDeprecationWarning))]
+            return ('graded', r.get('ok'), bool(ws))
+    except Exception as e:      # noqa
+        return ('exc', type(e).__name__, isinstance(e, StudentFacingError))
+
+
+def run_history(ctx, res, rng):
+    import numpy as np
+    graders = _graders()
+    O.fp_restore()
+    fresh = {}
+    for ch in ('evaluator', 'formula', 'matrix'):
+        for p in PROBES:
+            if ch == 'matrix' and '[' in p:
+                continue
+            fresh[(ch, p)] = history_step(ch, p, graders)
+            leak = O.fp_check('fresh-state probe %s(%r)' % (ch, p))
+            if leak:
+                res.witnesses.append({'key': 'fp:probe:%s:%s' % (ch, p), 'kind': 'fp-error-state-changed', 'history': [[ch, p]],
+                                      'what': 'numpy error state %r -> %r after %s(%r)' % (leak[1], leak[2], ch, p)})
+            # the property itself on the fresh state: out of the domain -> a student-facing error, never nan
+            o = fresh[(ch, p)]
+            if o[0] == 'ret' and o[1] == 'nan':
+                res.witnesses.append({'key': 'history:fresh:%s:%s' % (ch, p), 'kind': 'history', 'history': [], 'probe': [ch, p],
+                                      'what': 'probe evaluates to nan in a fresh state'})
+    thorough = ctx['tier'] == 'thorough' or ctx['escalate']
+    sequences = [[p] for p in PERTURBERS]
+    for _ in range(60 if thorough else 15):
+        sequences.append([rng.choice(PERTURBERS) for _ in range(rng.randint(2, 5))])
+    n = 0
+    for seq in sequences:
+        O.fp_restore()
+        leaked = None
+        try:
+            for ch, text in seq:
+                # (a) the state is inspected WITHOUT repairing it here: the probes below must see what a student would see
+                history_step_noguard(ch, text, graders)
+                res.oracle_evals += 1
+                now = O.fp_state()
+                if leaked is None and (dict(np.geterr()) != O.FP_BASELINE['err'] or np.geterrcall() is not O.FP_BASELINE['call']):
+                    leaked = (ch, text, now)
+            if leaked:
+                res.witnesses.append({'key': 'fp:%s:%s' % (leaked[0], leaked[1]), 'kind': 'fp-error-state-changed',
+                                      'history': [list(x) for x in seq],
+                                      'what': 'after %s(%r) the process-wide numpy error state is %r (configured: %r)'
+                                              % (leaked[0], leaked[1], leaked[2][0], O.FP_BASELINE['err'])})
+            # (b) probes after the history, compared with the fresh state
+            for (ch, p), want in sorted(fresh.items()):
+                if not thorough and len(seq) == 1 and ch != 'evaluator' and hash_slot(seq[0][1], p) % 3:
+                    continue
+                O_before = dict(np.geterr())
+                got = history_step_noguard(ch, p, graders)
+                res.oracle_evals += 1
+                n += 1
+                if got != want:
+                    res.witnesses.append({'key': 'history:%r:%s:%s' % (seq, ch, p), 'kind': 'history', 'history': [list(x) for x in seq],
+                                          'probe': [ch, p], 'fresh': repr(want), 'after': repr(got), 'error_state': O_before,
+                                          'what': 'after %r the probe %s(%r) gives %r; in a fresh state it gives %r'
+                                                  % (seq, ch, p, got, want)})
+        finally:
+            O.fp_restore()
+            del O.FP_LEAKS[:]
+    res.distribution['history_sequences'] = len(sequences)
+    res.distribution['history_probes'] = n
+
+
+def hash_slot(a, b):
+    return sum(ord(c) for c in a + '|' + b)
+
+
+def history_step_noguard(channel, text, graders):
+    """like history_step, but the error state found is left as it is (no repair between probes)"""
+    saved = dict(O.FP_BASELINE)
+    O.FP_BASELINE.clear()
+    try:
+        return history_step(channel, text, graders)
+    finally:
+        O.FP_BASELINE.update(saved)
 
 
 # ------------------------------------------------------------------------------------------------
@@ -774,7 +989,7 @@ def build_cases(ctx):
         cases += [c for i, c in enumerate(sub) if i % 9 == 0]
     cases += G.multi_cases(['formula', 'matrix'], rng, 25 if thorough else 8)
     cases += G.matrix_cases(rng, 24 if thorough else 8)
-    cases += G.arity_shape_cases([(t, names[t]) for t in ('formula', 'matrix')], rng)
+    cases += G.arity_shape_cases([(t, sorted(T[t])) for t in ('formula', 'matrix')], rng)
     # regression corpus: number-like (one-element) arrays of every rank at scalar positions must behave as the number they hold
     for t in ('formula', 'matrix'):
         for f in ('sin', 'sqrt', 'arccot', 'floor', 'kronecker', 'max'):
@@ -789,6 +1004,8 @@ def in_exact_stream(c, obs, index, thorough):
     """which calls are also evaluated by the Coq model over Gaussian rationals.  Everything except the bulk of the
     one-argument calls of the direct numpy entries (sin, exp, ...), about which that model only says `the wrapper lets the
     call through` -- of those, every failing call (exception recasting) and a deterministic slice are kept."""
+    if c['stream'] == 'arity':      # the count rule: every call that is not the plain ArgumentError, and a third of the rest
+        return thorough or obs.get('exc') != 'ArgumentError' or index % 3 == 0
     if c['stream'] != 'scalar':
         return True
     if obs['status'] != 'ret':
@@ -816,6 +1033,7 @@ def run(ctx):
             os.remove(stale)
         except OSError:
             pass
+    fp_start = O.fp_capture_baseline()
     cases = build_cases(ctx)
     thorough = ctx['tier'] == 'thorough' or ctx['escalate']
     pi_q = qlit(math.pi)
@@ -832,7 +1050,11 @@ def run(ctx):
         what = O.judge(c, obs)
         dist_key = '%s/%s' % (c['stream'], obs['status'] if obs['status'] == 'ret' else obs['exc'])
         dist[dist_key] = dist.get(dist_key, 0) + 1
-        if what:
+        if obs.get('fp_changed'):
+            res.witnesses.append({'key': 'fp:' + k, 'kind': 'fp-error-state-changed', 'table': c['table'], 'fname': c['fname'],
+                                  'args': c['args'], 'what': 'numpy error state %r -> %r after %s'
+                                  % (obs['fp_changed'][1], obs['fp_changed'][2], obs['fp_changed'][0])})
+        elif what:
             res.witnesses.append({'key': k, 'kind': 'call', 'table': c['table'], 'fname': c['fname'], 'args': c['args'],
                                   'what': what,
                                   'observed': repr(obs.get('value', obs.get('exc')))[:200]})
@@ -872,6 +1094,16 @@ def run(ctx):
 
     rows, keyrows = table_terms(res)
     crow = run_constants(res)
+    run_user_functions(res)
+    for label, before, after in list(O.FP_LEAKS):        # leaks noticed outside the evaluator calls judged above
+        if not label.startswith('evaluator('):
+            res.witnesses.append({'key': 'fp:' + label, 'kind': 'fp-error-state-changed', 'label': label,
+                                  'what': 'numpy error state %r -> %r after %s' % (before, after, label)})
+    del O.FP_LEAKS[:]
+    run_history(ctx, res, random.Random(1000003 * ctx['seed'] + 1515))
+    fp_end = O.fp_state()
+    fprows = ['(%s, %s)' % (listlit(['(%s, %s)' % (coq_string(k), coq_string(v)) for k, v in sorted(st[0].items())]),
+                            boollit(st[1] == 'handle_np_floating_errors')) for st in (fp_start, fp_end)]
     if len(crow) != 4:
         res.disagreements.append({'kind': 'constant', 'what': 'a constant did not evaluate'})
 
@@ -881,10 +1113,21 @@ def run(ctx):
     jobs = [('c15_exact', 'agree', terms, min(250, max(60, (len(terms) + 15) // 16)), 'xcase', fail_exact),
             ('c15_table', 'table_agree', rows, 400, None, lambda i: res.disagreements.append({'kind': 'table', 'row': rows[i]})),
             ('c15_keys', 'keys_agree', keyrows, 10, None, lambda i: res.disagreements.append({'kind': 'table-keys', 'row': keyrows[i][:200]})),
-            ('c15_const', 'const_agree', crow, 10, None, lambda i: res.disagreements.append({'kind': 'constant', 'row': crow[i]}))]
+            ('c15_const', 'const_agree', crow, 10, None, lambda i: res.disagreements.append({'kind': 'constant', 'row': crow[i]})),
+            ('c15_fpstate', 'fpstate_agree', fprows, 10, None,
+             lambda i: res.disagreements.append({'kind': 'fp-state', 'what': 'numpy error state at the %s of the run is not the configured one' % ('start', 'end')[i], 'row': fprows[i]}))]
     run_batch(jobs, goals, res)
     if goals:
         res.samples.append({'interval_goal': goals[len(goals) // 3][1][:400], 'case': goals[len(goals) // 3][0]})
+    # the driver files the first few witnesses: wrong values / nan first, then leaked state, then wrong error classes
+    def rank(w):
+        t = w.get('what', '')
+        if 'returned' in t or 'nan' in t or w.get('kind') == 'history':
+            return 0
+        if w.get('kind') == 'fp-error-state-changed':
+            return 1
+        return 2
+    res.witnesses.sort(key=rank)
     res.notes.append('boundary = scalar calls outside the band of the Interval stream (|z| > 30 or < 1e-6, |value| > 1e12, '
                      'neighbourhood of a pole, ill-conditioned identity); they are judged by the oracle only')
     return res
@@ -908,6 +1151,52 @@ def replay(w):
         run_constants(res)
         hit = [x for x in res.witnesses if x.get('formula') == w.get('formula')]
         return bool(hit), 'formula %s: %s' % (w.get('formula'), hit[0]['what'] if hit else 'satisfied')
+    if kind == 'fp-error-state-changed':
+        O.fp_capture_baseline()
+        O.fp_restore()
+        try:
+            if 'history' in w:
+                graders = _graders()
+                for ch, text in w['history']:
+                    history_step_noguard(ch, text, graders)
+                label = 'the calls %r' % (w['history'],)
+            elif 'fname' in w:
+                saved = dict(O.FP_BASELINE)
+                O.FP_BASELINE.clear()
+                try:
+                    O.run_impl(w['table'], w['fname'], w['args'])
+                finally:
+                    O.FP_BASELINE.update(saved)
+                label = '%s(%r)' % (w['fname'], w['args'])
+            else:
+                return False, 'not replayable individually: %s' % w.get('label')
+            now = O.fp_state()
+            import numpy as np
+            bad = dict(np.geterr()) != O.FP_BASELINE['err'] or np.geterrcall() is not O.FP_BASELINE['call']
+            return bad, 'numpy error state after %s: %r (configured: %r)' % (label, now[0], O.FP_BASELINE['err'])
+        finally:
+            O.fp_restore()
+    if kind == 'history':
+        O.fp_capture_baseline()
+        O.fp_restore()
+        try:
+            graders = _graders()
+            ch, p = w['probe']
+            want = history_step(ch, p, graders)
+            O.fp_restore()
+            for c2, text in w['history']:
+                history_step_noguard(c2, text, graders)
+            got = history_step_noguard(ch, p, graders)
+            bad = got != want or (got[0] == 'ret' and got[1] == 'nan')
+            return bad, 'after %r the probe %s(%r) gives %r; fresh state: %r' % (w['history'], ch, p, got, want)
+        finally:
+            O.fp_restore()
+    if kind == 'user-function':
+        res = core.Result()
+        O.fp_capture_baseline()
+        run_user_functions(res)
+        hit = [x for x in res.witnesses if x['key'] == w['key']]
+        return bool(hit), 'user function %s on %r: %s' % (w.get('name'), w.get('args'), hit[0]['what'] if hit else 'satisfied')
     if kind == 'table':
         res = core.Result()
         table_terms(res)
